@@ -71,7 +71,7 @@ CLAIMED.update({
 })
 
 CLAIMED.update({
- "C13": dict(technique="TLA+ spec of the token semaphore (Runner.tla, call-atomic, dependency semantics transcribed) model-checked over all operation histories; edge-cover replay on the real Runner/Token with counting wakers; multi-thread stress as a supplement",
+ "C13": dict(technique="TLA+ spec of the token semaphore (Runner.tla, call-atomic, dependency semantics transcribed) model-checked over all operation histories; edge-cover replay on the real Runner/Token with counting wakers; Server.tla (runner + clone + shutdown of either) for the shared limit; multi-thread stress as a supplement",
    text="Runner.tla models get_token as the async-lock acquire loop over an event-listener queue (listen, non-additional notify, propagation on drop) and checks TokenBound, NoStrandedSlot and ImmediateWhenFree over every history of create / poll / cancel / release for limits 1..3 on a runner and its clone. Every explored transition is executed on the real types and the poll results, the wake-ups of pending requests and the number of live tokens are compared.",
    note="thread interleavings inside async-lock / event-listener are not steerable from outside: covered by a stress run with an independent live-token counter, not by the model", ref="6 C13"),
  "C14": dict(technique="TLA+ spec of the wait-group at instruction granularity (WaitGroup.tla) with every interleaving forced onto the real code through the cfg-guarded scheduling-point hook; connection-side shutdown in Conn.tla replayed on Token::run; inductive invariant for any number of tokens by Apalache (AP_WaitGroup.tla, refined by WaitGroup.tla per TLC)",
